@@ -6,6 +6,7 @@ import json, os, re, subprocess, sys
 V = os.path.dirname(os.path.dirname(os.path.abspath(__file__)))
 pid, name = sys.argv[1], sys.argv[2]
 dry = '--dry' in sys.argv
+notest = '--no-test' in sys.argv
 diff = os.path.join(V, 'props', pid, 'fixes', name + '.diff')
 msgf = os.path.join(V, 'props', pid, 'fixes', name + '.msg')
 msg = open(msgf).read().strip() if os.path.exists(msgf) else None
@@ -25,6 +26,11 @@ print('touches', files)
 if any(re.search(r'Test|Tester', f) for f in files):
     sh('git -C /repo checkout -- .')
     sys.exit('fix edits test files; refused')
+if notest:
+    sh('git -C /repo add -u')
+    subprocess.run(['git', '-C', '/repo', 'commit', '-q', '-m', msg])
+    print('committed (untested)', sh('git -C /repo rev-parse --short HEAD').stdout.decode().strip())
+    sys.exit(0)
 p = sh('cd /repo && make check -j8 2>&1 | tail -400', timeout=3600)
 out = p.stdout.decode(errors='replace')
 base = set(json.load(open('/root/.vp/BASELINE.json'))['stable_pass'])
